@@ -161,11 +161,14 @@ Definition maxbytes (o : oracles) : N := if N.eqb (o_databytes o) 0 then 1844674
 Definition is_received (l : bytes) : bool := strncaseeq [82; 101; 99; 101; 105; 118; 101; 100; 58]%N l.
 
 Inductive dend :=
-| D_eod (msg : bytes) (msgsize : N)            (* terminating dot reached, message complete *)
-| D_toobig (linein : bytes)                    (* msgsize > maxbytes: drain, EMSGSIZE *)
-| D_loop (linein : bytes)                      (* too many hops: drain, 554 *)
+| D_eod (msg : bytes) (msgsize : N) (seen : list bytes)   (* terminating dot reached, message complete *)
+| D_toobig (linein : bytes) (seen : list bytes)           (* msgsize > maxbytes: drain, EMSGSIZE *)
+| D_loop (linein : bytes) (seen : list bytes)             (* too many hops: drain, 554 *)
 | D_readerr (e2big : bool) (linein : bytes)    (* net_read failed: drain, 500 / E2BIG; linein keeps the previous line *)
 | D_dead | D_stuck.
+
+(** [seen] is a ghost: the data lines written to the queue so far, oldest first; it does not
+    influence the behaviour and exists for the statements of C02 / C15. *)
 
 (** one net_read inside smtp_data *)
 Definition dread (r : rstate) (prev : bytes) : (dend + bytes) * rstate :=
@@ -178,26 +181,28 @@ Definition dread (r : rstate) (prev : bytes) : (dend + bytes) * rstate :=
   | Line l => (inr l, r')
   end.
 
-Definition dfinal (o : oracles) (l msg : bytes) (msgsize : N) : dend :=
-  if N.ltb (maxbytes o) msgsize then D_toobig l else D_eod msg msgsize.
+Definition dfinal (o : oracles) (l msg : bytes) (msgsize : N) (seen : list bytes) : dend :=
+  if N.ltb (maxbytes o) msgsize then D_toobig l seen else D_eod msg msgsize seen.
 
 (** the body loop: [l] is the line in linein *)
-Fixpoint body_loop (fuel : nat) (o : oracles) (r : rstate) (l msg : bytes) (msgsize : N) : dend * rstate :=
+Fixpoint body_loop (fuel : nat) (o : oracles) (r : rstate) (l msg : bytes) (msgsize : N) (seen : list bytes)
+  : dend * rstate :=
   match fuel with
   | O => (D_stuck, r)
   | S f =>
-      if is_dot l || N.ltb (maxbytes o) msgsize then (dfinal o l msg msgsize, r)
+      if is_dot l || N.ltb (maxbytes o) msgsize then (dfinal o l msg msgsize seen, r)
       else
         let msg' := msg ++ unstuff l ++ [LF] in
         let sz' := (msgsize + N.of_nat (length (unstuff l)) + 2)%N in
         match dread r l with
         | (inl d, r') => (d, r')
-        | (inr l', r') => body_loop f o r' l' msg' sz'
+        | (inr l', r') => body_loop f o r' l' msg' sz' (seen ++ [l])
         end
   end.
 
 (** the header loop, then the empty line and the body *)
-Fixpoint hdr_loop (fuel : nat) (o : oracles) (r : rstate) (l msg : bytes) (msgsize : N) (hops : nat) : dend * rstate :=
+Fixpoint hdr_loop (fuel : nat) (o : oracles) (r : rstate) (l msg : bytes) (msgsize : N) (hops : nat) (seen : list bytes)
+  : dend * rstate :=
   match fuel with
   | O => (D_stuck, r)
   | S f =>
@@ -207,27 +212,27 @@ Fixpoint hdr_loop (fuel : nat) (o : oracles) (r : rstate) (l msg : bytes) (msgsi
             (* "\n" is written, msgsize += 2, next line, body loop *)
             match dread r l with
             | (inl d, r') => (d, r')
-            | (inr l', r') => body_loop f o r' l' (msg ++ [LF]) (msgsize + 2)%N
+            | (inr l', r') => body_loop f o r' l' (msg ++ [LF]) (msgsize + 2)%N (seen ++ [l])
             end
-        | _ => (dfinal o l msg msgsize, r)
+        | _ => (dfinal o l msg msgsize seen, r)
         end
       else
         let rcv := negb (N.eqb (nth 0 l 0%N) DOT) && is_received l in
         let hops' := if rcv then S hops else hops in
-        if rcv && Nat.ltb MAXHOPS hops' then (D_loop l, r)
+        if rcv && Nat.ltb MAXHOPS hops' then (D_loop l seen, r)
         else
           let msg' := msg ++ unstuff l ++ [LF] in
           let sz' := (msgsize + N.of_nat (length (unstuff l)) + 2)%N in
           match dread r l with
           | (inl d, r') => (d, r')
-          | (inr l', r') => hdr_loop f o r' l' msg' sz' hops'
+          | (inr l', r') => hdr_loop f o r' l' msg' sz' hops' (seen ++ [l])
           end
   end.
 
 Definition data_loop (fuel : nat) (o : oracles) (r : rstate) (trace : bytes) : dend * rstate :=
   match dread r [] with
   | (inl d, r') => (d, r')
-  | (inr l, r') => hdr_loop fuel o r' l trace 0%N 0
+  | (inr l, r') => hdr_loop fuel o r' l trace 0%N 0 []
   end.
 
 (** eat everything up to the line with the single dot (loop_data / err_write); [prev_dot]: linein already is "." *)
@@ -357,7 +362,7 @@ Definition h_data (fuel : nat) (o : oracles) (s : sstate) : list event * hres * 
         match de with
         | D_dead => ([Note (NData k); Reply 354], HEXIT, s')
         | D_stuck => ([Note (NData k); Reply 354; EStuck], HEXIT, s')
-        | D_eod msg _ =>
+        | D_eod msg _ _ =>
             (* queue_envelope (freedata) + queue_result *)
             let env := envelope (mailfrom s') (rcpts s') in
             let sf := freedata s' in
@@ -369,10 +374,10 @@ Definition h_data (fuel : nat) (o : oracles) (s : sstate) : list event * hres * 
             | QQ_signal => ([Note (NData k); Reply 354; Note NBoundary; Reply 451], HEDONE, sf)
             | QQ_die_write => ([Note (NData k); Reply 354; Note NBoundary; Reply 451], HEDONE, sf)
             end
-        | D_toobig l =>
+        | D_toobig l _ =>
             let '(alive, r2) := drain fuel r' l in
             if alive then ([Note (NData k); Reply 354; Note NBoundary], HEMSGSIZE, freedata (set_rd s' r2)) else ([Note (NData k); Reply 354], HEXIT, set_rd s' r2)
-        | D_loop l =>
+        | D_loop l _ =>
             let '(alive, r2) := drain fuel r' l in
             if alive then ([Note (NData k); Reply 354; Note NBoundary; Reply 554], HEDONE, freedata (set_rd s' r2)) else ([Note (NData k); Reply 354], HEXIT, set_rd s' r2)
         | D_readerr big l =>
